@@ -580,7 +580,7 @@ def module_cases(ctx, n, n_hist, n_derived=0, n_samename=0, n_wide=0, n_own=0):
     """n fresh designs exported once; n_hist designs with a history: exported (module + testbench, twice,
     identical text required), EXTENDED IN PLACE, and only then put through the same tie + search; n_derived
     blocks produced by copy_block / optimize / synthesize; n_samename designs whose memories share a name"""
-    exprs, meta, spec_exprs, spec_meta = [], [], [], {}
+    exprs, meta, expr_of = [], [], {}
     san_exprs, san_meta = [], []
     tb_jobs = []
     plan = [(i, False) for i in range(n)] + [(('h', k), True) for k in range(n_hist)] + \
@@ -623,7 +623,11 @@ def module_cases(ctx, n, n_hist, n_derived=0, n_samename=0, n_wide=0, n_own=0):
             ctx.model_mismatch('Simulation rejected an API-built design: %s' % e, {'design': i})
             continue
         dump = None
-        for add_reset, coq_mode, mname in MODES:
+        # quick tier: the continuous assigns are the same text under the three options, so only one (seeded)
+        # option replays the whole stimulus; the other two replay its first two cycles
+        full_mode = ctx.sub_rng('fullmode', i).randrange(3) if ctx.tier == 'quick' else None
+        for mode_k, (add_reset, coq_mode, mname) in enumerate(MODES):
+            ins_mode = inputs if full_mode in (None, mode_k) else inputs[:2]
             try:
                 text = export(block, add_reset)
             except (pyrtl.PyrtlError, pyrtl.PyrtlInternalError) as e:
@@ -670,30 +674,43 @@ def module_cases(ctx, n, n_hist, n_derived=0, n_samename=0, n_wide=0, n_own=0):
             if dump is None:
                 dump = nlx.Dump(block, net_order=net_order(block, mod, rev))
                 probes = [(m.id, a) for m in d.mems for a in range(1 << m.addrwidth)]
-                spec_exprs.append('spec_case %s 0 [] %s %s %s' % (
-                    dump.coq(), dump.memmap(memmap), dump.inputs(inputs), nlx.pairs(probes)))
-                spec_meta[i] = len(spec_exprs) - 1
+                order = [dump.wid[w] for w in dump.wires if isinstance(w, pyrtl.Const)] + \
+                        [dump.wid[n.dests[0]] for n in dump.nets if n.op not in 'r@']
+                # ONE expression per design: netlist, stimulus and (if the texts agree field by field) the module
+                # are written once and shared by the reference run and the runs under each add_reset option
+                mod0, runs = None, []
+                design_head = ('let nl := %s in let order := %s in let mm := %s in let ins := %s in let pr := %s in '
+                               % (dump.coq(), nlx.zlist(order), dump.memmap(memmap), dump.inputs(inputs),
+                                  nlx.pairs(probes)))
             try:
-                mterm = mod.coq(idmap)
+                if mod0 is None:
+                    mod0, m0term = mod, mod.coq(idmap)
+                    mterm = 'm0'
+                elif mod.same_but_reset(mod0):
+                    mterm = '(set_mode m0 %s %s)' % mod.coq(idmap, only_mode_resets=True)
+                else:
+                    mterm = mod.coq(idmap)
             except KeyError as e:
                 ctx.model_mismatch('identifier %s of the emitted text cannot be attributed to a wire' % e, rep)
                 continue
-            order = [dump.wid[w] for w in dump.wires if isinstance(w, pyrtl.Const)] + \
-                    [dump.wid[n.dests[0]] for n in dump.nets if n.op not in 'r@']
-            exprs.append('verilog_case %s %s %s %s %s %s %s' % (
-                dump.coq(), coq_mode, mterm, nlx.zlist(order), dump.memmap(memmap), dump.inputs(inputs),
-                nlx.pairs(probes)))
+            runs.append('verilog_case nl %s %s order mm %s pr' % (
+                coq_mode, mterm, 'ins' if len(ins_mode) == len(inputs) else '(firstn %d ins)' % len(ins_mode)))
             names = dump.names()
             meta.append(dict(i=i, mode=mname, add_reset=add_reset, names=names, rep=rep, block=block, hist=hist, text=text,
-                             impl_trace=[[tracer.trace[nm][t] for nm in names] for t in range(len(inputs))],
+                             pos=len(runs),
+                             impl_trace=[[tracer.trace[nm][t] for nm in names] for t in range(len(ins_mode))],
+                             full=len(ins_mode) == len(inputs),
                              impl_mem=[sim.memvalue[mid].get(a, 0) for (mid, a) in probes],
                              outputs=[k for k, w in enumerate(dump.wires) if isinstance(w, pyrtl.Output)],
                              topo={dump.wid[n.dests[0]] - 1: pos for pos, n in enumerate(dump.nets) if n.dests},
                              regs=[(nm, getattr(rev[nm], 'reset_value', None) or 0) for nm, _ in mod.regs],
-                             ncyc=len(inputs), mod=mod, d=d))
+                             ncyc=len(ins_mode), mod=mod, d=d))
             for _, e in mod.assigns + mod.resets:
                 if e[0] == 'dec':
                     ctx.count('unsized_literals', '>=2^31' if e[1] >= (1 << 31) else '<2^31')
+        if dump is not None and runs:
+            exprs.append('%slet m0 := %s in [spec_case nl 0 [] mm ins pr; %s]' % (design_head, m0term, '; '.join(runs)))
+            expr_of[i] = len(exprs) - 1
         if dump is not None:
             for o in d.ops:
                 ctx.count('ops', o)
@@ -712,15 +729,16 @@ def module_cases(ctx, n, n_hist, n_derived=0, n_samename=0, n_wide=0, n_own=0):
             if small and (hist or isinstance(i, tuple) or i < (20 if ctx.tier == 'quick' else 80)):
                 tb_jobs.append((i, d, idmap, dump, regmap, memmap, inputs))
     shard = 12 if ctx.tier == 'quick' else 40
-    spec = safe_eval(ctx, spec_exprs, IMPORTS, 'c05spec', shard)
-    res = safe_eval(ctx, exprs, IMPORTS, 'c05ver', shard)
-    for c, r in zip(meta, res):
-        if r is None or spec[spec_meta[c['i']]] is None:
+    res = safe_eval(ctx, exprs, IMPORTS, 'c05ver', max(4, shard // 3))
+    for c in meta:
+        R = res[expr_of[c['i']]] if c['i'] in expr_of else None
+        if R is None:
             ctx.model_mismatch('the Coq evaluator failed or timed out on design %r add_reset=%r' % (
                 c['i'], c['add_reset']), dict(c['rep'], text=c.get('text', '')[:3000]))
             continue
+        spec_r, r = R[0], R[c['pos']]
         try:
-            judge_module(ctx, c, r, spec[spec_meta[c['i']]])
+            judge_module(ctx, c, r, spec_r)
         except Exception as e:   # never let one case take the run down
             ctx.model_mismatch('harness error while judging design %r: %s: %s' % (c['i'], type(e).__name__, e), c['rep'])
     san = safe_eval(ctx, san_exprs, IMPORTS_SAN, 'c05san', shard)
@@ -761,7 +779,7 @@ def judge_module(ctx, c, r, spec):
     diffs = [[k for k in range(nw) if not (vtrace[t][k] == c['impl_trace'][t][k] == spec_trace[t][k])]
              for t in range(c['ncyc'])]
     out_differs = any(k in c['outputs'] for dt in diffs for k in dt)
-    mem_differs = not (vmem == c['impl_mem'] == spec_mem)
+    mem_differs = c['full'] and not (vmem == c['impl_mem'] == spec_mem)
     varying = any(len({row[k] for row in c['impl_trace']}) > 1 for k in c['outputs'])
     key = (c['i'], c['mode'], hashlib.sha1(repr(c['impl_trace']).encode()).hexdigest()[:12])
     sample = None
